@@ -430,6 +430,9 @@ class Decimal(Element):
         except decimal.InvalidOperation:
             dec = decimal.Decimal(value.replace(",", "."))
 
+        if not dec.is_finite():
+            raise OFXSpecError(f"'{value}' is not a finite decimal number")
+
         if self.scale is not None:
             dec = dec.quantize(self.scale)
 
@@ -449,7 +452,9 @@ class Decimal(Element):
     def _unconvert_decimal(self, value: decimal.Decimal):
         if self.scale is not None and not value.same_quantum(self.scale):
             raise ValueError(f"'{value}' doesn't match scale={self.scale}")
-        return str(value)
+        if not value.is_finite():
+            raise ValueError(f"'{value}' is not a finite decimal number")
+        return format(value, "f")
 
     @unconvert.register
     def _unconvert_none(self, value: None) -> None:
